@@ -46,11 +46,16 @@ def main():
         if c["bulk"]:
             # the bulk entry point on fresh streams must give the same seeds as the per-stream calls
             fresh = {n: MersenneTwister(origs[n]) for n in names}
+            for a, b in c.get("alias", []):          # one stream object registered under two names
+                if a in fresh and b in fresh:
+                    fresh[b] = fresh[a]
             try:
                 upd.update_seeds(fresh, r)
                 bulk = {n: str(s.seed()) for n, s in fresh.items()}
             except Exception as ex:
-                bulk = {"error": type(ex).__name__}
+                # a refusal half-way: which streams were already re-seeded must not depend on the process
+                bulk = {n: str(s.seed()) for n, s in fresh.items()} if c.get("fixed_order") else {}
+                bulk["error"] = type(ex).__name__
             out.append({"a": "Bulk", "child": child, "cfg": c["id"], "seeds": json.dumps(bulk, sort_keys=True)})
     json.dump(out, sys.stdout)
 
